@@ -356,7 +356,7 @@ def check(engine: Engine, tier: str, batch_seed: int, jobs: int, n_override: int
             continue
         seen.add(ent["id"])
         total = sum(c for e, c in known_lines if e["id"] == ent["id"])
-        print(f"KNOWN-FINDING: property={engine.prop} {ent['id']}: {ent['what']} (seen {total}x in this run)")
+        print(f"KNOWN-FINDING: property={engine.prop} {ent['id']}: {ent['what'][:400]} (seen {total}x in this run)")
 
     missing = [p for p in engine.required_probes if not agg["probes"].get(p)]
     wall = time.time() - t0
